@@ -158,6 +158,11 @@ def cases(ctx):
         elif i % 60 == 17:
             c = lopsided_case(rng)
             ctx.count("class:frequent_category_stored_explicitly")
+        elif i % 60 == 29:
+            # many dimensions (a deep walk, a 6- to 10-axis result)
+            c = gen.cube_case(rng, ndims=int(gen.pick(rng, [6, 8, 10])), max_axes=1, max_extent=2, n=int(gen.pick(rng, [12, 40])),
+                              allow_outside_common=False)
+            ctx.count("class:six_to_ten_dimensions")
         elif i % 60 == 43:
             c = gen.lopsided_cube_case(rng)
             ctx.count("class:frequent_category_stored_explicitly")
